@@ -1,7 +1,7 @@
 """Engines behind bin/check. See DESIGN.md sections 2-4."""
 import os, sys, json, time, hashlib, subprocess, glob, re, shutil
 
-ROOT = '/verif'
+ROOT = os.path.dirname(os.path.dirname(os.path.dirname(os.path.abspath(__file__))))   # /verif (or a snapshot of it)
 BUILD = os.path.join(ROOT, 'build')
 SPEC = os.path.join(ROOT, 'spec')
 REPO = '/repo'
